@@ -193,6 +193,7 @@ func main() {
 	genJA4()
 	genLifecycle()
 	genShared()
+	genFlow()
 	facts["issues"] = issues
 	keys := make([]string, 0, len(facts))
 	for k := range facts {
